@@ -11,7 +11,7 @@ Idx == blk * BS + off + 1
 Verdict(rec) ==
     IF rec.kind = "coeff"
     THEN JudgeCoeffs(rec.e, SeqToSet(rec.tgt), rec.tgt = << "ALL" >>, rec.res)
-    ELSE JudgeSolve(rec.eqs, << "x", "y" >>, rec.res)
+    ELSE JudgeSolve(rec.eqs, << "x", "y" >>, rec.res, rec.par)
 \* drift: what the collector really returned against the transcription's prediction
 Drift(rec) ==
     rec.kind = "coeff" /\ rec.res.r \in {"ok", "err"}
